@@ -158,6 +158,34 @@ pub fn boundary_cases(rng: &mut Rng8) -> Vec<Case> {
     for n in 5..10 {
         out.push(Case::new(format!("begin {} end", "hperm ".repeat(n))));
     }
+    // chiplet-dominated boundary with MEMORY rows last: hasher rows come in multiples of 8, so
+    // the chiplet section can only end on 2^k-2 / 2^k-1 / 2^k through the number of memory rows
+    // (mem_stream = 2 memory rows per cycle, an optional mem_load flips the parity). Sweep the
+    // window below each power of two for two mixes of hasher and memory rows.
+    for t in [64usize, 128, 256] {
+        // (a) mostly memory: 8 hasher rows (program hash) + 2n (+1) memory rows
+        let n0 = (t - 8) / 2;
+        for n in n0.saturating_sub(5)..=n0 + 1 {
+            for extra in ["", "mem_load "] {
+                out.push(Case::new(format!("begin repeat.{n} mem_stream end {extra}end")));
+            }
+        }
+        // (b) mostly hasher: h hperm + m word stores, h chosen so that 8(h+1) is just below t
+        let h = (t / 8).saturating_sub(2);
+        for m in 0..18 {
+            let stores: String = (0..m).map(|a| format!("mem_storew.{a} ")).collect();
+            out.push(Case::new(format!("begin {} {stores} end", "hperm ".repeat(h))));
+        }
+    }
+    // kernel ROM rows last: a kernel with k procedures adds k rows after the memory rows
+    for k in 1..4 {
+        let kernel: String = (0..k).map(|i| format!("export.k{i} push.{i} drop end ")).collect();
+        for n in 24..30 {
+            let mut c = Case::new(format!("begin repeat.{n} mem_stream end syscall.k0 end"));
+            c.kernel = Some(kernel.clone());
+            out.push(c);
+        }
+    }
     // range-dominated: many distinct 16-bit limbs
     let n = rng.gen_range(1..8);
     let mut body = String::new();
@@ -182,9 +210,11 @@ pub fn run(cfg: &Cfg) -> Report {
             let case = gen_case(&mut rng, &gc);
             run_case(&case, oi, &mut rep);
         }
-        if sh % 4 == 0 {
+        if sh % 8 == 0 {
+            // trace-length boundary sweep (main-, chiplet- and range-dominated shapes)
             for (j, c) in boundary_cases(&mut rng).into_iter().enumerate() {
-                run_case(&c, (sh / 4 + j) % 3, &mut rep);
+                run_case(&c, (sh / 8 + j) % 3, &mut rep);
+                rep.count("boundary_cases", "proved");
             }
         }
         rep
